@@ -546,12 +546,28 @@ func run(c *common.Ctx) *common.Result {
 				res.Cap("replay divergence (machinery)")
 				return false
 			}
+			confirmed := 0 // 0 unknown, 1 the failure replays identically, -1 it does not
 			report := func(class, detail string) {
 				if reported[class] {
 					return
 				}
-				reported[class] = true
 				choices := append([]int{}, r.Choices...)
+				if confirmed == 0 {
+					// replay the recorded schedule on fresh scopes before trusting the failure
+					r2 := &explore.Run{Prefix: choices}
+					x2 := runOnce(sc, r2, false)
+					if r2.Err == nil && x2.verdict == x.verdict && x2.panicked == x.panicked && fmt.Sprint(x2.lockset) == fmt.Sprint(x.lockset) && histString(x2.hist) == histString(x.hist) {
+						confirmed = 1
+					} else {
+						confirmed = -1
+						res.Note("a failing execution of " + sc.String() + " did not replay identically: not reported")
+						res.Cap("an execution did not replay identically (machinery)")
+					}
+				}
+				if confirmed < 0 {
+					return
+				}
+				reported[class] = true
 				res.Violate(common.Violation{Class: class, Case: sc.String(), Detail: detail + " | schedule=" + fmt.Sprint(choices),
 					Replay: replayData{Scenario: sc, Choices: choices}})
 			}
